@@ -92,12 +92,18 @@ struct Acc {
     thorough: bool,
     /// which seed configuration forms level 0 (0 = the constructor's rule, 1 = six rules)
     seed: usize,
+    /// the signer no rule names is "S1's key bytes under ANOTHER verifier contract" instead of
+    /// "another key under the same verifier"
+    alias_u: bool,
 }
 
 struct Inst {
     e: Env,
     acc: Address,
     verifier: Address,
+    /// a second, equally accepting verifier contract that no rule names
+    verifier2: Address,
+    alias_u: bool,
     pol: [Address; 2],
     t1: Address,
     t2: Address,
@@ -111,6 +117,7 @@ impl Inst {
     fn signer(&self, k: usize) -> Signer {
         match k {
             D => Signer::Delegated(self.d.clone()),
+            U if self.alias_u => Signer::External(self.verifier2.clone(), Bytes::from_array(&self.e, &[S1 as u8 + 1; 4])),
             _ => Signer::External(self.verifier.clone(), Bytes::from_array(&self.e, &[k as u8 + 1; 4])),
         }
     }
@@ -472,7 +479,7 @@ impl World for Acc {
     type Inst = Inst;
 
     fn name(&self) -> String {
-        format!("multisig-smart-account{}-seed{}", if self.thorough { "-t" } else { "" }, self.seed)
+        format!("multisig-smart-account{}-seed{}{}", if self.thorough { "-t" } else { "" }, self.seed, if self.alias_u { "-foreign-verifier-alias" } else { "" })
     }
 
     fn seed_name(&self, _s: usize) -> String {
@@ -483,6 +490,7 @@ impl World for Acc {
         let seed = self.seed;
         let e = envx::mk_env(100);
         let verifier = e.register(wrap::MockVerifier, ());
+        let verifier2 = e.register(wrap::MockVerifier, ());
         let pol = [e.register(wrap::MockPolicy, ()), e.register(wrap::MockPolicy, ())];
         // P2's uninstall hook always fails: a removed policy must stop gating its rule all the same
         call_mocked(&e, &pol[1], "set_trap_uninstall", (true,).into_val(&e)).expect("set_trap_uninstall");
@@ -495,7 +503,7 @@ impl World for Acc {
         auth::back(&e, &d);
         let target = e.register(wrap::Target, ());
         let wasm = BytesN::from_array(&e, &[1u8; 32]);
-        let mut i = Inst { e, acc: t1.clone(), verifier, pol, t1, t2, target, d, wasm, base: 100 };
+        let mut i = Inst { e, acc: t1.clone(), verifier, verifier2, alias_u: self.alias_u, pol, t1, t2, target, d, wasm, base: 100 };
         let mut sv: SVec<Signer> = SVec::new(&i.e);
         sv.push_back(i.signer(S1));
         let pm: Map<Address, Val> = Map::new(&i.e);
@@ -637,9 +645,14 @@ fn main() {
         "phase 1: level-BFS over add/remove context rule (types Default, Call(T1), Create(W); signer sets over {s1,s2 external, d delegated}; policy sets over {P1,P2}; valid_until none|now|now+1), add/remove signer, add/remove policy, update valid_until on the real account example; phase 2, for every configuration reached: the real __check_auth for every single context x every supplied-signer map (absent/valid/invalid per signer incl. an unknown one) x ledger {now, now+2} x every can_enforce assignment x enforce refusal, and ordered context pairs with a 7-map signer family; an independent resolver predicts acceptance and the exact multiset of enforce calls; end-to-end execute through the account with crafted signatures",
         |tier: Tier, r: &mut Runner| {
             let th = tier == Tier::Thorough;
-            r.world(&Acc { thorough: th, seed: 0 }, &Bounds::new(2, tier.pick(40, 420)));
-            // the six-rule seed: every single edit of it (quick), every pair of edits with the quick alphabet (thorough)
-            r.world(&Acc { thorough: false, seed: 1 }, &Bounds::new(tier.pick(1, 2), tier.pick(15, 150)));
+            r.world(&Acc { thorough: th, seed: 0, alias_u: false }, &Bounds::new(2, tier.pick(40, 420)));
+            // the six-rule seed: every single edit of it (quick), every pair of edits with the quick alphabet (thorough);
+            // here the unnamed signer is S1's key under a second verifier contract
+            r.world(&Acc { thorough: false, seed: 1, alias_u: true }, &Bounds::new(tier.pick(1, 2), tier.pick(15, 150)));
+            if th {
+                r.world(&Acc { thorough: false, seed: 0, alias_u: true }, &Bounds::new(2, 150));
+                r.world(&Acc { thorough: false, seed: 1, alias_u: false }, &Bounds::new(1, 60));
+            }
             if let Some(rep) = r.report() {
                 rep.require(
                     &["add_context_rule", "remove_context_rule", "add_signer", "remove_signer", "add_policy", "remove_policy", "update_valid_until"],
